@@ -86,7 +86,13 @@ func harnessDir(pkg string) string { return filepath.Join(repoDir, harnessPkgs[p
 func runReplayBinary(bin, jobPath, dir string) (string, error) {
 	ctx, cancel := context.WithTimeout(context.Background(), 120*time.Second)
 	defer cancel()
-	cmd := exec.CommandContext(ctx, bin, "-test.run", "^TestVerifReplay$", "-test.count=1", "-test.timeout=100s")
+	// The VM models runtime.NumCPU() as 2 (the worker count the library picks for parallelism 0). Run the native replay on two
+	// CPUs when taskset is available so that the native run takes the same code paths; without taskset it runs unrestricted.
+	args := []string{"-test.run", "^TestVerifReplay$", "-test.count=1", "-test.timeout=100s"}
+	cmd := exec.CommandContext(ctx, bin, args...)
+	if ts, err := exec.LookPath("taskset"); err == nil {
+		cmd = exec.CommandContext(ctx, ts, append([]string{"-c", "0,1", bin}, args...)...)
+	}
 	cmd.Dir = dir
 	cmd.Env = append(os.Environ(), "VERIF_JOB="+jobPath)
 	out, _ := cmd.CombinedOutput()
